@@ -26,7 +26,14 @@ func (e *Enc) call(x *ssa.Call, st *State) {
 	name := funcName(callee)
 	fc := e.p.cs.Funcs[name]
 	if fc == nil {
-		panic(unsupported{"call of " + name + " which has no contract"})
+		// functions of side-effect free standard packages get the default assumed contract
+		// "modifies nothing, returns some value of the result type"
+		if callee.Pkg != nil && purePackages[callee.Pkg.Pkg.Path()] {
+			fc = &FuncC{Name: name, Kind: "extern", HasMod: true, Loops: map[int]*LoopC{}}
+			e.defaultExterns[name] = true
+		} else {
+			panic(unsupported{"call of " + name + " which has no contract"})
+		}
 	}
 	var args []Val
 	for _, a := range cc.Args {
@@ -392,3 +399,5 @@ func (e *Enc) lookup(x *ssa.Lookup, st *State) {
 	}
 	e.mapLookup(x, st)
 }
+
+var purePackages = map[string]bool{"strings": true, "strconv": true, "unicode": true, "unicode/utf8": true, "math": true, "math/bits": true, "bytes": true, "slices": true}
